@@ -527,6 +527,17 @@ func (t *Task) load(
 	if len(first.Header.Parent) == 32 && !bytes.Equal(localHash, first.Header.Parent) {
 		return nil, ErrReorg
 	}
+	// partitions are fetched independently and may have been
+	// served from different versions of the chain
+	for i := 1; i < len(blocks); i++ {
+		prev, curr := blocks[i-1], blocks[i]
+		if curr.Num() != prev.Num()+1 {
+			return nil, fmt.Errorf("loaded blocks not contiguous: %d %d", prev.Num(), curr.Num())
+		}
+		if len(curr.Header.Parent) == 32 && !bytes.Equal(prev.Hash(), curr.Header.Parent) {
+			return nil, fmt.Errorf("loaded blocks not linked: %d %d", prev.Num(), curr.Num())
+		}
+	}
 	slog.DebugContext(ctx, "load",
 		"n", last.Num(),
 		"h", fmt.Sprintf("%.4x", last.Hash()),
